@@ -397,6 +397,26 @@ inline IoEntry make_entry()
                 } catch (const std::exception & ex) {
                     R.viol(key, std::string("loading a valid dump threw: ") + ex.what(), cas);
                 }
+                if (pat == -1) {
+                    // the same dump embedded in a longer stream (other data before and behind it, as in a container file):
+                    // a loader must start where the stream stands and stop behind its own footer
+                    const std::string pre = "\x7f" "covfie-embedded\n", post = "TAIL\xab\x1e\x4f\xc0";
+                    std::istringstream es(pre + D + post);
+                    std::string head(pre.size(), '\0');
+                    es.read(head.data(), static_cast<std::streamsize>(pre.size()));
+                    try {
+                        covfie::field<B> g(es);
+                        ++R.transitions;
+                        std::string rest(post.size(), '\0');
+                        es.read(rest.data(), static_cast<std::streamsize>(post.size()));
+                        if (es.gcount() != static_cast<std::streamsize>(post.size()) || rest != post) R.viol(key, "a dump embedded in a longer stream: the loader did not stop right behind its own footer", cas + " embedded");
+                        std::ostringstream o3;
+                        g.dump(o3);
+                        if (o3.str() != D) R.viol(key, "a dump embedded in a longer stream reloads to a different field", cas + " embedded");
+                    } catch (const std::exception & ex) {
+                        R.viol(key, std::string("loading a valid dump embedded in a longer stream threw: ") + ex.what(), cas + " embedded");
+                    }
+                }
             }
         }
         ++R.counters["stacks"];
